@@ -99,7 +99,7 @@ def model_body_sig(line):
 
 def leg(ctx, rep, rnd, tier, only=None):
     info = ctx["info"]
-    wmodel = info.get("writer_model") or vlib.build_ml("writer")
+    wmodel = info.get("model_writer") or info.get("writer_model") or vlib.build_ml("writer")
     if only is not None:
         bodies = [only]
     else:
@@ -150,7 +150,7 @@ def leg(ctx, rep, rnd, tier, only=None):
     if mismatches:
         # which side is wrong?  the specification decoder on the implementation's whole message, and the specification
         # encoder on the program (wire model's `build`)
-        spec = info.get("model") or vlib.build_ml("wire")
+        spec = info.get("model_wire") or info.get("model") or vlib.build_ml("wire")
         sres, _ = vlib.run_lines(spec, ["spec1 " + x[8] for x in mismatches])
         bres, _ = vlib.run_lines(spec, [x[1] for x in mismatches])
         for (b, p, i, m, ib, isg, mb, msg, whole), sr, br in zip(mismatches, sres, bres):
@@ -160,7 +160,7 @@ def leg(ctx, rep, rnd, tier, only=None):
                 rep.violation("writer model disagrees with the implementation on the %s, and the implementation's message is the specification encoding of the program: %s\n impl  body=%s sig=%s\n model body=%s sig=%s"
                               % (what, b[:200], ib[:200], isg, (mb or "")[:200], msg), {"input": b, "impl": i, "model": m, "spec": sr[:300], "leg": "writer", "names": NAMES}, found_input=False)
             else:
-                rep.violation("the message writer produced a %s that is not the encoding of the appended values: %s\n impl  body=%s sig=%s\n model body=%s sig=%s\n spec decoder on the implementation's message: %s"
+                rep.violation("the message writer's output (%s) is not the encoding of the appended values: %s\n impl  body=%s sig=%s\n model body=%s sig=%s\n spec decoder on the implementation's message: %s"
                               % (what, b[:200], ib[:200], isg, (mb or "")[:200], msg, sr[:120]), {"input": b, "cmd": p, "impl": i, "model": m, "spec": sr[:300], "leg": "writer"})
     return {"programs": len(bodies), "agree": agree, "mismatch": len(mismatches), "impl_crashes": len(icr), "shapes": shapes,
             "samples": bodies[:2] + bodies[len(bodies) // 2:len(bodies) // 2 + 2],
